@@ -156,6 +156,161 @@ theorem line_consumed (o : Opts) (cs0 cs2 : List Chunk) (t' : Tk)
   rw [this.1, posTok_snoc]
   simp [renderWs]
 
+/-! ### the line of a report, in terms of the characters
+
+  `upto j cs`: the chunks up to and including the `j`-th token (all of `cs` when it has fewer tokens); `endLine cs j`: the line on
+  which the scanner stands behind the `j`-th token — for `j` = number of tokens + 1: behind the whole text (END scanned).
+  A report made at a state `j` tokens into the text (`RepAt`: after CONSUME_TOKEN of the `j`-th token, or with the `j+1`-th
+  token scanned and pending) is on line `endLine cs j` or `endLine cs (j+1)`. -/
+
+def upto : Nat → List Chunk → List Chunk
+  | 0, _ => []
+  | _ + 1, [] => []
+  | j + 1, .ws a :: r => .ws a :: upto (j + 1) r
+  | j + 1, .tk t :: r => .tk t :: upto j r
+
+def behind : Nat → List Chunk → List Chunk
+  | 0, cs => cs
+  | _ + 1, [] => []
+  | j + 1, .ws _ :: r => behind (j + 1) r
+  | j + 1, .tk _ :: r => behind j r
+
+theorem upto_behind : ∀ (j : Nat) (cs : List Chunk), upto j cs ++ behind j cs = cs
+  | 0, _ => by simp [upto, behind]
+  | _ + 1, [] => by simp [upto, behind]
+  | j + 1, .ws a :: r => by simp [upto, behind, upto_behind (j + 1) r]
+  | j + 1, .tk t :: r => by simp [upto, behind, upto_behind j r]
+
+theorem toks_upto : ∀ (j : Nat) (cs : List Chunk), j ≤ (toks cs).length → (toks (upto j cs)).length = j
+  | 0, _, _ => by simp [upto, toks]
+  | _ + 1, [], h => by simp [toks] at h
+  | j + 1, .ws a :: r, h => by simpa [upto, toks] using toks_upto (j + 1) r (by simpa [toks] using h)
+  | j + 1, .tk t :: r, h => by simpa [upto, toks] using toks_upto j r (by simpa [toks] using h)
+
+theorem upto_all : ∀ (j : Nat) (cs : List Chunk), (toks cs).length < j → upto j cs = cs
+  | 0, _, h => by omega
+  | _ + 1, [], _ => by simp [upto]
+  | j + 1, .ws a :: r, h => by simp [upto, upto_all (j + 1) r (by simpa [toks] using h)]
+  | j + 1, .tk t :: r, h => by simp [upto, upto_all j r (by simp [toks] at h; omega)]
+
+def endLine (cs : List Chunk) (j : Nat) : Nat := (posAfter 1 0 (renderChunks (upto j cs))).1
+
+theorem posTok_upto : ∀ (cs : List Chunk) (j : Nat) (w : List WsAtom) (line col : Nat), j + 1 ≤ (toks cs).length →
+    posTok line col w (upto (j + 1) cs) = posAfter line col (renderWs w ++ renderChunks (upto (j + 1) cs))
+  | [], _, _, _, _, h => by simp [toks] at h
+  | .ws a :: r, j, w, line, col, h => by
+    simp only [upto, posTok, renderChunks]
+    rw [posTok_upto r j (w ++ a) line col (by simpa [toks] using h), renderWs_append, List.append_assoc]
+  | .tk t :: r, 0, w, line, col, _ => by simp [upto, posTok, renderChunks]
+  | .tk t :: r, j + 1, w, line, col, h => by
+    simp only [upto, posTok, renderChunks]
+    rw [posTok_upto r j [] _ _ (by simp [toks] at h; omega), ← List.append_assoc, posAfter_append (renderWs w ++ t.chars)]
+    simp [renderWs]
+
+theorem posTok_endLine (cs : List Chunk) (j : Nat) (hj : j ≤ (toks cs).length) : (posTok 1 0 [] (upto j cs)).1 = endLine cs j := by
+  cases j with
+  | zero => simp [upto, posTok, endLine, renderChunks, posAfter]
+  | succ j => rw [posTok_upto cs j [] 1 0 hj]; simp [endLine, renderWs]
+
+/-- the walk over ALL tokens of an accepted text, and next_token at its end: END, behind the whole text -/
+theorem reach_end (o : Opts) : ∀ (cs : List Chunk) (w : List WsAtom) (line col : Nat) (lt : TokType),
+    okC o.dia lt w cs → linesFit col (renderWs w ++ renderChunks cs) = true →
+    ∃ s₀ t sr, Reach o { scan := ⟨renderWs w ++ renderChunks cs, line, col, lt⟩, tok := none } (toks cs).length s₀ ∧
+      (∀ pol w0, nextTok o s₀ pol w0 = .ok (t, sr) w0) ∧
+      sr.scan.line = (posAfter line col (renderWs w ++ renderChunks cs)).1 := by
+  intro cs
+  induction cs with
+  | nil =>
+    intro w line col lt hok hfit
+    simp only [renderChunks, List.append_nil] at hfit ⊢
+    refine ⟨_, ⟨.end_, [], (posAfter line col (renderWs w)).1, (posAfter line col (renderWs w)).2⟩,
+      { scan := ⟨[], (posAfter line col (renderWs w)).1, (posAfter line col (renderWs w)).2, .end_⟩,
+        tok := some ⟨.end_, [], (posAfter line col (renderWs w)).1, (posAfter line col (renderWs w)).2⟩ }, Reach.zero _, ?_, rfl⟩
+    intro pol w0
+    have h1 := sep_then o.dia w [] line col lt pol w0.log hok hfit
+    rw [List.append_nil] at h1
+    simp only [nextTok, Parser.bind_eq, Parser.pure_eq, P.bind, P.pure, liftL, h1, nextToken_eq]
+    rfl
+  | cons x r ih =>
+    intro w line col lt hok hfit
+    cases x with
+    | ws a =>
+      have e : renderWs w ++ renderChunks (.ws a :: r) = renderWs (w ++ a) ++ renderChunks r := by
+        simp [renderChunks, renderWs_append]
+      simp only [toks]
+      rw [e] at hfit ⊢
+      exact ih (w ++ a) line col lt hok hfit
+    | tk t =>
+      obtain ⟨hw, htok, hadj, htext, hrest⟩ := hok
+      have e : renderWs w ++ renderChunks (.tk t :: r) = (renderWs w ++ t.chars) ++ renderChunks r := by
+        simp [renderChunks]
+      have hfit' := hfit
+      rw [e, linesFit_append] at hfit'
+      simp only [Bool.and_eq_true] at hfit'
+      have hstep := tk_step o.dia t w (renderChunks r) line col lt hw htok hadj htext hfit'.1 (tkFollow_of_okC o.dia t r hrest)
+      obtain ⟨s₀, t2, sr, hr, hn, hl⟩ := ih [] (posAfter line col (renderWs w ++ t.chars)).1
+        (posAfter line col (renderWs w ++ t.chars)).2 t.spec.1 hrest
+        (by rw [posAfter_col_indep _ line 0]; simpa [renderWs] using hfit'.2)
+      refine ⟨s₀, t2, sr, ?_, hn, ?_⟩
+      · have e2 : renderWs w ++ renderChunks (.tk t :: r) = renderWs w ++ (t.chars ++ renderChunks r) := by
+          simp [renderChunks]
+        simp only [toks, List.length_cons]
+        rw [e2]
+        refine Reach.step
+          (t := ⟨t.spec.1, t.spec.2, (posAfter line col (renderWs w ++ t.chars)).1, (posAfter line col (renderWs w ++ t.chars)).2⟩)
+          (s1 := { scan := ⟨renderChunks r, (posAfter line col (renderWs w ++ t.chars)).1,
+                            (posAfter line col (renderWs w ++ t.chars)).2, t.spec.1⟩,
+                   tok := some ⟨t.spec.1, t.spec.2, (posAfter line col (renderWs w ++ t.chars)).1,
+                                (posAfter line col (renderWs w ++ t.chars)).2⟩ }) ?_ rfl ?_
+        · intro pol w0
+          simp [nextTok, Parser.bind_eq, Parser.pure_eq, P.bind, P.pure, liftL, hstep pol w0.log]
+        · simpa [consume, renderWs] using hr
+      · rw [hl, e, posAfter_append (renderWs w ++ t.chars)]
+        simp [renderWs]
+
+/-- **the line of a report**: made `j` tokens into an accepted text (`RepAt`), it is on the line behind the `j`-th token or on the
+    line behind the `j+1`-th (behind the whole text when there is no further token) -/
+theorem repAt_line (o : Opts) (cs : List Chunk) (hok : okC o.dia .end_ [] cs) (hfit : linesFit 0 (renderChunks cs) = true)
+    {j : Nat} {r : Report} (hj : j ≤ (toks cs).length)
+    (h : RepAt o { scan := Scan.init (renderChunks cs), tok := none } j r) :
+    r.line = endLine cs j ∨ r.line = endLine cs (j + 1) := by
+  have hsplit := upto_behind j cs
+  have hok' : okC o.dia .end_ [] (upto j cs ++ behind j cs) := by rw [hsplit]; exact hok
+  have hfit' : linesFit 0 (renderWs [] ++ renderChunks (upto j cs ++ behind j cs)) = true := by
+    rw [hsplit]; simpa [renderWs] using hfit
+  have hS : ({ scan := Scan.init (renderChunks cs), tok := none } : PS)
+      = { scan := ⟨renderWs [] ++ renderChunks (upto j cs ++ behind j cs), 1, 0, .end_⟩, tok := none } := by
+    rw [hsplit]; simp [Scan.init, renderWs]
+  rcases h.forms with ⟨s₀, hr, hl⟩ | ⟨s₀, t, sr, hr, hn, ht, hl⟩
+  · left
+    rw [hS] at hr
+    have := reach_line o (upto j cs) (behind j cs) [] 1 0 .end_ hok' hfit' (by rw [toks_upto j cs hj]; exact hr)
+    rw [hl, this.1, posTok_endLine cs j hj]
+  · right
+    by_cases hlt : j + 1 ≤ (toks cs).length
+    · have hsplit2 := upto_behind (j + 1) cs
+      have h2 := hr.snoc hn ht
+      have hS2 : ({ scan := Scan.init (renderChunks cs), tok := none } : PS)
+          = { scan := ⟨renderWs [] ++ renderChunks (upto (j + 1) cs ++ behind (j + 1) cs), 1, 0, .end_⟩, tok := none } := by
+        rw [hsplit2]; simp [Scan.init, renderWs]
+      rw [hS2] at h2
+      have := reach_line o (upto (j + 1) cs) (behind (j + 1) cs) [] 1 0 .end_ (by rw [hsplit2]; exact hok)
+        (by rw [hsplit2]; simpa [renderWs] using hfit) (by rw [toks_upto (j + 1) cs hlt]; exact h2)
+      rw [hl]
+      have e : sr.scan.line = (consume sr).scan.line := rfl
+      rw [e, this.1, posTok_endLine cs (j + 1) hlt]
+    · have hje : j = (toks cs).length := by omega
+      obtain ⟨s₀', t', sr', hr', hn', hl'⟩ := reach_end o cs [] 1 0 .end_ hok (by simpa [renderWs] using hfit)
+      have hS3 : ({ scan := Scan.init (renderChunks cs), tok := none } : PS)
+          = { scan := ⟨renderWs [] ++ renderChunks cs, 1, 0, .end_⟩, tok := none } := by simp [Scan.init, renderWs]
+      rw [hS3, hje] at hr
+      have e0 := hr.det hr'
+      subst e0
+      obtain ⟨_, e1⟩ := nextTok_inj hn hn'
+      subst e1
+      rw [hl, hl', endLine, upto_all (j + 1) cs (by omega)]
+      simp [renderWs]
+
 /-! ### characters, tokens and fuel
 
   Every accepted token has at least one character, a block header at least six: the fuel `parse` passes (`fuelFor`: twice the
@@ -269,7 +424,7 @@ theorem parse_of_parseCif (o : Opts) (pol : Policy) (c : CU) (rest : Str) (W' : 
   a body in a document: well-formed blocks `pre` in front, the header `data_bc`, the body, well-formed blocks `post` behind. -/
 theorem block_defect_run (o : Opts) (hstore : o.store = true) (hmfd : o.maxFrameDepth ≠ 0) (pre post : List Block) (bc : Str)
     (T : List TokSpec) (fs' : List Container) (ls' : List Loop) (C : Code) (need minf : Nat) (bseen2 : List Str) (s : PS)
-    (total : Nat) (w : W) (hw : w.cif = [])
+    (total : Nat) (w : W) (Q : PS → Report → Prop) (hw : w.cif = [])
     (hpre : wfBlocks o pre [] = true) (hcode : wfCode bc = true)
     (hnew : ∀ c ∈ denote o.dia o.normKey pre, codeIs o.norm (o.norm bc) c = false)
     (hpost : wfBlocks o post bseen2 = true)
@@ -279,24 +434,24 @@ theorem block_defect_run (o : Opts) (hstore : o.store = true) (hmfd : o.maxFrame
         ∃ s2 r, elemsLoop o (f + need) s1 (some [o.norm bc]) true acceptAll w1
             = elemsLoop o f s2 (some [o.norm bc]) true acceptAll
                 { log := r :: w1.log, cif := denote o.dia o.normKey pre ++ [.mk bc fs' ls'] }
-          ∧ r.code = C ∧ Feeds o s2 (blocksToks post ++ [(.end_, [])]))
+          ∧ r.code = C ∧ Feeds o s2 (blocksToks post ++ [(.end_, [])]) ∧ Q s1 r)
     (hfuel : szBlocks pre + szBlocks post + pre.length + post.length + need + minf + 5 ≤ total)
     (hF : Feeds o s (blocksToks pre ++ ((.blockHead, bc) :: (T ++ (blocksToks post ++ [(.end_, [])]))))) :
     ∃ s' r, blocksLoop o total s acceptAll w
         = .ok s' { log := r :: w.log, cif := denote o.dia o.normKey pre ++ pruneC (.mk bc fs' ls') :: denote o.dia o.normKey post }
-      ∧ r.code = C := by
+      ∧ r.code = C ∧ ∃ s1, At o s ((blocksToks pre).length + 1) s1 ∧ Q s1 r := by
   simp only [wfCode, Bool.and_eq_true] at hcode
   obtain ⟨F, rfl⟩ : ∃ F, total = (F + post.length + 1) + pre.length := ⟨total - pre.length - post.length - 1, by omega⟩
   -- the blocks in front
-  obtain ⟨s1, h1, h2⟩ := blocks_prefix o hstore hmfd pre [] _ s (F + post.length + 1) acceptAll w hpre
+  obtain ⟨s1, h1, h2, hat⟩ := blocks_prefix_at o hstore hmfd pre [] _ s (F + post.length + 1) acceptAll w hpre
     (by rw [hw]; intro c hc; cases hc) (by omega) ⟨.blockHead, bc, _, rfl, Or.inl rfl⟩ hF
   -- the header
-  obtain ⟨t, s1', hty, htx, hn, _, hr⟩ := h2.inv
+  obtain ⟨t, s1', hty, htx, hn, htk, hr⟩ := h2.inv
   have hnew' : ∀ c ∈ ({ w with cif := w.cif ++ denote o.dia o.normKey pre } : W).cif, codeIs o.norm (o.norm bc) c = false := by
     intro c hc; simp only [hw, List.nil_append] at hc; exact hnew c hc
   -- the body
   obtain ⟨f, hf⟩ : ∃ f, F + post.length = ((f + 1) + need) + 1 := ⟨F + post.length - need - 2, by omega⟩
-  obtain ⟨s2, r, h3, hrc, h4⟩ := hstep (consume s1')
+  obtain ⟨s2, r, h3, hrc, h4, hP⟩ := hstep (consume s1')
     { w with cif := (w.cif ++ denote o.dia o.normKey pre) ++ [.mk bc [] []] } (f + 1) (by simp [hw]) (by omega) hr
   -- the end of the container
   obtain ⟨ty, tx, ts, hrest, hfol⟩ := blocks_rest_head post
@@ -308,7 +463,7 @@ theorem block_defect_run (o : Opts) (hstore : o.store = true) (hmfd : o.maxFrame
   -- the blocks behind
   obtain ⟨s4, h6⟩ := blocks_structure o hstore hmfd post bseen2 s3 F acceptAll
     { log := r :: w.log, cif := denote o.dia o.normKey pre ++ [pruneC (.mk bc fs' ls')] } hpost hseen2 (by omega) h5
-  refine ⟨s4, r, ?_, hrc⟩
+  refine ⟨s4, r, ?_, hrc, _, hat.step hn htk, hP⟩
   rw [h1]
   conv => lhs; rw [blocksLoop]
   simp only [Parser.bind_eq, Parser.pure_eq, P.bind, P.pure, hn, hty, htx, hstore, if_true, cstr_noNul hcode.2,
@@ -339,7 +494,7 @@ theorem pruneC_code (c : Container) : (pruneC c).code = c.code := by
     before and behind. -/
 theorem block_defect_chars (o : Opts) (hstore : o.store = true) (hmfd : o.maxFrameDepth ≠ 0) (hutf : o.notUtf8 = false)
     (cs : List Chunk) (c : CU) (rest : Str) (preB postB : List Block) (bc : Str) (T : List TokSpec)
-    (fs' : List Container) (ls' : List Loop) (C : Code) (need minf : Nat) (bseen2 : List Str)
+    (fs' : List Container) (ls' : List Loop) (C : Code) (need minf : Nat) (bseen2 : List Str) (Q : PS → Report → Prop)
     (hok : okC o.dia .end_ [] cs) (hfit : linesFit 0 (renderChunks cs) = true)
     (hc : renderChunks cs = c :: rest) (hfirst : disallowedInitial c = false) (hbom : (c == 0xFEFF) = false)
     (ht : toks cs = blocksToks preB ++ ((.blockHead, bc) :: (T ++ blocksToks postB)))
@@ -351,18 +506,19 @@ theorem block_defect_chars (o : Opts) (hstore : o.store = true) (hmfd : o.maxFra
         ∃ s2 r, elemsLoop o (f + need) s1 (some [o.norm bc]) true acceptAll w1
             = elemsLoop o f s2 (some [o.norm bc]) true acceptAll
                 { log := r :: w1.log, cif := denote o.dia o.normKey preB ++ [.mk bc fs' ls'] }
-          ∧ r.code = C ∧ Feeds o s2 (blocksToks postB ++ [(.end_, [])])) :
+          ∧ r.code = C ∧ Feeds o s2 (blocksToks postB ++ [(.end_, [])]) ∧ Q s1 r) :
     ∃ r, parse o acceptAll [] (renderChunks cs)
         = { rc := 0, log := [r],
             cif := denote o.dia o.normKey preB ++ pruneC (.mk bc fs' ls') :: denote o.dia o.normKey postB }
-      ∧ r.code = C := by
+      ∧ r.code = C
+      ∧ ∃ s1, At o { scan := Scan.init (renderChunks cs), tok := none } ((blocksToks preB).length + 1) s1 ∧ Q s1 r := by
   have hfeeds := feeds_chunks o cs [] 1 0 .end_ hok (by simpa [renderWs] using hfit)
   have hfuel := fuel_block_defect o.dia cs .end_ [] hok preB postB bc T need minf ht hneed
   simp only [renderWs, List.map_nil, List.flatten_nil, List.nil_append] at hfeeds
   rw [ht] at hfeeds
   rw [hc] at hfeeds hfuel ⊢
-  obtain ⟨s', r, h, hr⟩ := block_defect_run o hstore hmfd preB postB bc T fs' ls' C need minf bseen2 _ (fuelFor (c :: rest))
-    { log := [], cif := [] } rfl hpreB hcode
+  obtain ⟨s', r, h, hr, hP⟩ := block_defect_run o hstore hmfd preB postB bc T fs' ls' C need minf bseen2 _ (fuelFor (c :: rest))
+    { log := [], cif := [] } Q rfl hpreB hcode
     (by
       intro x hx
       obtain ⟨b, hb, hcb⟩ := denote_code hx
@@ -377,7 +533,7 @@ theorem block_defect_chars (o : Opts) (hstore : o.store = true) (hmfd : o.maxFra
       · simp only [List.mem_singleton] at hx
         rw [hx, pruneC_code]; exact hb2')
     hstep hfuel (by simpa [List.append_assoc] using hfeeds)
-  refine ⟨r, ?_, hr⟩
+  refine ⟨r, ?_, hr, hP⟩
   rw [parse_of_blocks o acceptAll c rest s' _ hutf hfirst hbom h]
   simp
 
